@@ -14,7 +14,7 @@ def prove(ctx, units, modules, required, tie_module, tie_ns, extra_allow=None):
         if extra_allow and extra_allow(t, a):
             return True
         return (t.startswith(tie_ns + '.') and a.startswith(tie_ns + '.') and '._native.bv_decide.ax_' in a
-                and a.split('._native.bv_decide.ax_')[0].endswith('_generated'))
+                and '_generated' in a.split('._native.bv_decide.ax_')[0].split('.')[-1])
     tie_file = tie_module.replace('.', '/') + '.lean'
     ties = [t for t in ctx.prop_theorems(tie_file) if t.endswith('_tie') or t.endswith('_generated')]
     ok = ctx.prove(list(modules) + [tie_module], list(required) + ties, allow_extra_axioms=allow)
